@@ -4,7 +4,7 @@
    PARTIAL with respect to "denotes a positive operator of trace one and rank 2^r": proved are the generator-level facts from which that follows (N-r mutually
    commuting, independent, Hermitian generators; -I is never a stabilizer: see C06 group_sign_unique/group_independent); positivity of a product of commuting projectors
    and Tr = 2^r-normalisation are the cited textbook step (checked densely for N<=3 after every step of every walk by the correspondence check). *)
-From PC Require Import Model.Base Model.Pauli Model.CMap Model.Tableau Model.Circuit Model.Spec Proofs.CircuitFacts Proofs.CompileFacts Proofs.MaskFacts Proofs.TableauInv Proofs.ReachFacts.
+From PC Require Import Model.Base Model.Pauli Model.CMap Model.Tableau Model.Circuit Model.Spec Proofs.CircuitFacts Proofs.CompileFacts Proofs.MaskFacts Proofs.TableauInv Proofs.ReachFacts Model.Poly Model.PolySem Model.Sample Proofs.TraceFacts.
 Open Scope Z_scope.
 
 (* invariant by induction over histories: every state reachable by any finite sequence of public operations, from any valid start, with any coin schedule *)
@@ -62,6 +62,18 @@ Print Assumptions C05_exactly_N_minus_r_generators.
 Theorem C05_state_to_map_valid : forall n t, tableau_ok n t -> valid_map n (to_map t).
 Proof. exact to_map_valid. Qed.
 Print Assumptions C05_state_to_map_valid.
+(* the density matrix of every valid tableau: trace one, and rho * rho = 2^-r rho as matrices (so 2^r rho is a projector of rank 2^r; positivity of a Hermitian idempotent is the
+   remaining textbook step) *)
+Theorem C05_trace_one : forall n t, tableau_ok n t -> trace_sem n (density_poly t) = c1.
+Proof. exact trace_rho_one. Qed.
+Print Assumptions C05_trace_one.
+Theorem C05_rho_squared : forall n t k k', tableau_ok n t -> length k = n ->
+  amp (pmulp (density_poly t) (density_poly t)) k k' = cmul (half_pow (rk t)) (amp (density_poly t) k k').
+Proof. exact rho_squared. Qed.
+Print Assumptions C05_rho_squared.
+Theorem C05_rho_terms_hermitian : forall n t a, tableau_ok n t -> In a (density_terms t) -> hermP a /\ length (fst a) = n.
+Proof. exact rho_terms_hermitian. Qed.
+Print Assumptions C05_rho_terms_hermitian.
 (* non-vacuity: a signed, entangled, rank-1 three-qubit tableau satisfies the invariant (decidable form) *)
 Example C05_example : tableau_ok_b
   {| rows := [([(true,false);(true,false);(false,false)],2); ([(false,true);(false,true);(false,false)],0); ([(false,false);(false,false);(false,true)],2);
